@@ -438,10 +438,16 @@ func (m *Monitors) checkAcceptance(n *Node, msg *Msg, pre Pre) {
 	if meta.H != pre.H {
 		return
 	}
-	if n.Interrupted || n.pendingTrig != nil || n.pendingSync != nil {
-		// an election / sync told this peer to leave its position (the main loop has cancelled the contexts; the worker half is still
-		// to come, or came during this very delivery): not "a matching state" any more
-		return
+	if n.Leaving {
+		// the main loop has told this peer to leave some positions (their contexts are cancelled) and the worker half is still to come,
+		// or came during this very delivery: for a message about one of THOSE positions the peer is not "in a matching state" any more.
+		// A message about a later position (e.g. the NEW_VIEW of the next view) is unaffected and judged as usual.
+		if n.LeaveSync && meta.H <= n.LeaveH {
+			return
+		}
+		if !n.LeaveSync && meta.Union != UC && (meta.H < n.LeaveH || (meta.H == n.LeaveH && meta.V <= n.LeaveV)) {
+			return
+		}
 	}
 	// guard: after an agreement violation peers may be on different chains; C11 does not apply then
 	sender := w.Nodes[msg.From]
